@@ -84,6 +84,8 @@ type Remote struct {
 	closed  bool
 	quit    chan struct{}
 	auto    chan BlockKey // auto-seed: requests to answer
+	unsolW  map[[2]uint32]bool // blocks for which we sent data nobody had asked for, since the last cut
+	maybe   map[BlockKey]int   // requests that crossed with such data: storrent may count them as answered
 	tainted bool          // it has stopped reading at some point: messages it read afterwards were sent at unknown earlier
 	// moments, possibly before its own chokes / advert changes, so request bookkeeping that depends on what was
 	// outstanding when (while-choked, duplicate, queue depth, not-advertised, cancels) is no longer judged for it
@@ -219,6 +221,7 @@ func (r *Remote) closeWindow() {
 	r.lastCut = time.Now()
 	r.outP = map[BlockKey]bool{}
 	r.cancW = map[BlockKey]bool{}
+	r.unsolW = nil
 	if !r.Opt.Fast {
 		r.cancOurs = map[BlockKey]int{}
 	}
@@ -361,6 +364,11 @@ func (r *Remote) onRecv(m refwire.Msg) {
 			}
 			r.canc[k] = true
 			r.Tr.Sw.C.Count("cancels_for_outstanding", 1)
+		case r.maybe[k] > 0:
+			r.maybe[k]--
+			if r.maybe[k] == 0 {
+				delete(r.maybe, k)
+			}
 		case r.window && r.outP[k]:
 			// crossed with our answer / reject / choke
 			delete(r.outP, k)
@@ -425,6 +433,18 @@ func (r *Remote) onRequest(m refwire.Msg) {
 	chokedBefore := r.chokingP && !r.fastSet[m.Index]
 	if chokedNow && !(r.window && !chokedBefore) {
 		r.viol("C11", "conformance", "request-while-choked", fmt.Sprintf("request %v while choked and not allowed-fast", k))
+	}
+	if r.unsolW[[2]uint32{k.Index, k.Begin}] {
+		// we pushed data for this block, unasked, since the last quiescent point: the request and the data
+		// crossed, and storrent rightly takes the data for the answer. Not outstanding for sure.
+		if r.maybe == nil {
+			r.maybe = map[BlockKey]int{}
+		}
+		r.maybe[k]++
+		r.everReq[k] = true
+		delete(r.canc, k)
+		sw.C.Count("requests_crossed_with_unsolicited_data", 1)
+		return
 	}
 	if r.out[k] > 0 {
 		r.viol("C11", "conformance", "request-duplicate", fmt.Sprintf("request %v duplicates an outstanding request", k))
@@ -494,6 +514,14 @@ func (r *Remote) onPiece(m refwire.Msg) {
 // so what we believe about its choke state may be out of date.  Call with mu held.
 func (r *Remote) staleView() bool {
 	return r.pauseUntil.After(r.lastCut) || time.Now().Before(r.pauseUntil)
+}
+
+// Stalled reports whether the remote is not reading now, or has not been reading at some time since the
+// last quiescent point: storrent may then be behind in handling what the remote sent.
+func (r *Remote) Stalled() bool {
+	r.mu.Lock()
+	defer r.mu.Unlock()
+	return r.staleView()
 }
 
 func dec(m map[BlockKey]int, k BlockKey) bool {
@@ -612,6 +640,7 @@ func (r *Remote) Send(m refwire.Msg) error {
 				r.outP[k] = true
 			}
 			r.out = map[BlockKey]int{}
+			r.maybe = nil
 		}
 	case refwire.KUnchoke:
 		r.openWindow()
@@ -693,6 +722,19 @@ func (r *Remote) answer(k BlockKey) {
 			return
 		}
 	}
+	for o := range r.maybe {
+		if o.Index == k.Index && o.Begin == k.Begin {
+			r.maybe[o]--
+			if r.maybe[o] <= 0 {
+				delete(r.maybe, o)
+			}
+			return
+		}
+	}
+	if r.unsolW == nil {
+		r.unsolW = map[[2]uint32]bool{}
+	}
+	r.unsolW[[2]uint32{k.Index, k.Begin}] = true
 	for o := range r.canc {
 		if o.Index == k.Index && o.Begin == k.Begin {
 			delete(r.canc, o)
